@@ -188,6 +188,42 @@ fn contains(hay: &[u8], needle: &[u8]) -> bool {
     !needle.is_empty() && hay.windows(needle.len()).any(|w| w == needle)
 }
 
+/// recall per stratum of planted indels: name -> (planted, reported)
+pub static STRATA: std::sync::Mutex<std::collections::BTreeMap<&'static str, (u64, u64)>> = std::sync::Mutex::new(std::collections::BTreeMap::new());
+
+/// strata an indel belongs to (each is a sub-population of the property's domain)
+fn strata_of(c: &Case, m: &Mat, i: usize) -> Vec<&'static str> {
+    let (p, ln, cs) = &m.indels[i];
+    let a = &m.ancestor;
+    let mut v = vec!["all"];
+    if c.twin && m.indels.len() >= 2 && i < 2 {
+        v.push("twin(same_sequence_and_carriers_at_two_loci)");
+    }
+    // junction homology: by how many bases the deletion can be shifted without changing the result
+    let mut right = 0;
+    while p + ln + right < a.len() && a[p + right] == a[p + ln + right] {
+        right += 1;
+    }
+    let mut left = 0;
+    while left < *p && a[p - 1 - left] == a[p + ln - 1 - left] {
+        left += 1;
+    }
+    if left + right >= *ln {
+        v.push("junction_homology>=indel_length(homopolymer_or_tandem_unit)");
+    } else if left + right == 0 {
+        v.push("no_junction_homology");
+    }
+    let carriers = cs.iter().filter(|x| **x).count();
+    if 2 * carriers == cs.len() {
+        v.push("carried_by_exactly_half_of_the_samples");
+    }
+    if carriers == 1 || carriers + 1 == cs.len() {
+        v.push("singleton_carrier_or_singleton_non_carrier");
+    }
+    v.push(match *ln { 1 => "length_1", 2..=4 => "length_2-4", _ => "length_5-10" });
+    v
+}
+
 pub static PLANTED: AtomicU64 = AtomicU64::new(0);
 pub static FOUND: AtomicU64 = AtomicU64::new(0);
 
@@ -203,7 +239,7 @@ fn check(c: &Case, ctx: &Ctx) -> Outcome {
     };
     let k = c.k;
     let dir = ctx.case_dir();
-    let r: Result<(usize, usize), Outcome> = (|| {
+    let r: Result<(Vec<usize>, usize), Outcome> = (|| {
         must_ok(&build(ctx, &dir, "x", &m.samples, k, true, 1), "ska build")?;
         let ts = c.threads.to_string();
         let mut args = vec!["lo", "x.skf", "out", "--threads", &ts];
@@ -295,16 +331,27 @@ fn check(c: &Case, ctx: &Ctx) -> Outcome {
             }
         }
         let _ = n_rec;
-        Ok((matched.len(), m.indels.len()))
+        Ok((matched, m.indels.len()))
     })();
     ctx.done(&dir);
     match r {
         Err(Outcome::Fail(msg)) => Outcome::Fail(format!("k={k} threads={} ancestor={} indels={:?}: {msg}", c.threads, lossy(&m.ancestor), m.indels)),
         Err(o) => o,
-        Ok((found, planted)) => {
+        Ok((matched, planted)) => {
+            let found = matched.len();
             if !ctx.replay {
                 PLANTED.fetch_add(planted as u64, Ordering::Relaxed);
                 FOUND.fetch_add(found as u64, Ordering::Relaxed);
+                let mut st = STRATA.lock().unwrap();
+                for i in 0..planted {
+                    for name in strata_of(c, &m, i) {
+                        let e = st.entry(name).or_insert((0, 0));
+                        e.0 += 1;
+                        if matched.contains(&i) {
+                            e.1 += 1;
+                        }
+                    }
+                }
             }
             let mut cl = vec![];
             if found == planted { cl.push("all_found"); } else { cl.push("some_missed"); }
@@ -322,6 +369,26 @@ fn post(rt: &mut Runtime) {
     if let Some(s) = rt.stages.last_mut() {
         s.extra.insert("planted_indels".into(), json!(p));
         s.extra.insert("reported_indels".into(), json!(f));
+        let st = STRATA.lock().unwrap();
+        s.extra.insert("recall_by_stratum".into(), json!(st.iter().map(|(k, (p, f))| (k.to_string(), json!({"planted": p, "reported": f}))).collect::<serde_json::Map<String, serde_json::Value>>()));
+    }
+    if std::env::var("VERIF_DEBUG").is_ok() {
+        for (k, (p, f)) in STRATA.lock().unwrap().iter() {
+            eprintln!("STRATUM {k}: {f}/{p} = {:.3}", *f as f64 / (*p).max(1) as f64);
+        }
+    }
+    // the 90 % bound holds for every population of inputs in the property's domain, so it is also
+    // applied to each stratum of the generated population (>= 150 planted indels; observed recall on
+    // the unchanged tree is >= 98.8 % in every stratum)
+    for (name, (sp, sf)) in STRATA.lock().unwrap().iter() {
+        if *name != "all" && *sp >= 150 && (*sf as f64) < 0.90 * *sp as f64 {
+            rt.violations.push(crate::engine::Violation {
+                stage: "aggregate".into(),
+                case: json!({"stratum": name, "planted": sp, "found": sf}),
+                message: format!("stratum {name}: only {sf} of {sp} planted isolated indels were reported (< 90%)"),
+                worker: 0,
+            });
+        }
     }
     if p >= 200 && (f as f64) < 0.90 * p as f64 {
         rt.violations.push(crate::engine::Violation {
@@ -333,7 +400,7 @@ fn post(rt: &mut Runtime) {
     }
 }
 
-const RULE: &str = "generated: ancestor (all insertions present) with unique (k-1)-mers on both strands, 1-3 indels of length 1..min(10,k-1) at least 4k apart and 2k from the ends, carrier sets non-empty and proper over 3-8 samples, in 30% of the multi-indel cases the second indel removes the same sequence from the same carriers as the first (two loci, two records expected), the union of all derived samples re-checked: a (k-1)-mer may recur only at the same ancestor coordinates (rejections counted), samples randomly reverse-complemented, k in {11,15,21,31}, threads 1/2/4; in a third of the cases one of >= 4 samples is truncated >= 2k before an indel (neither form present: must be genotyped '.', run with -m 0.4). Oracle per record: before+REF+after (or its reverse complement) occurs in exactly the samples genotyped 0, before+ALT+after in exactly those genotyped 1, '.' iff neither or both; the record matches one planted indel by length and carriers, none twice, none unmatched; aggregate recall >= 90% (checked when >= 200 planted). Non-trivial: >= 1 indel reported.";
+const RULE: &str = "generated: ancestor (all insertions present) with unique (k-1)-mers on both strands, 1-3 indels of length 1..min(10,k-1) at least 4k apart and 2k from the ends, carrier sets non-empty and proper over 3-8 samples, in 30% of the multi-indel cases the second indel removes the same sequence from the same carriers as the first (two loci, two records expected), the union of all derived samples re-checked: a (k-1)-mer may recur only at the same ancestor coordinates (rejections counted), samples randomly reverse-complemented, k in {11,15,21,31}, threads 1/2/4; in a third of the cases one of >= 4 samples is truncated >= 2k before an indel (neither form present: must be genotyped '.', run with -m 0.4). Oracle per record: before+REF+after (or its reverse complement) occurs in exactly the samples genotyped 0, before+ALT+after in exactly those genotyped 1, '.' iff neither or both; the record matches one planted indel by length and carriers, none twice, none unmatched; aggregate recall >= 90% (checked when >= 200 planted), also within each stratum of >= 150 planted indels (twin pairs, junction homology >= indel length, no junction homology, carried by exactly half of the samples, singleton carrier, length classes). Non-trivial: >= 1 indel reported.";
 
 fn stages(tier: Tier) -> Vec<Box<dyn Stage>> {
     vec![gen_stage_show("indels", RULE, tier.pick(1600, 20_000), 150, case_strategy, check, |c| match materialise(c) {
